@@ -2010,13 +2010,25 @@ def _scalar_param_root(b, op, depth=0):
     """the by-value integer parameter this operand is (through moves and value-preserving casts), else None"""
     from . import r2 as _r2
 
+    prev = None
     while depth < 20:
         if op["k"] == "const":
             return None
         pl = op["place"]
         if pl["proj"]:
+            # `let x = <iN as Deserialize>::deserialize(d)?;` - the Continue payload of the `?` on a deserialize call is input
+            # from outside just like a parameter (any value of the type); its identity is the local that receives it
+            kinds = [e["k"] for e in pl["proj"]]
+            if prev is not None and kinds == ["downcast", "field"] and pl["proj"][0].get("variant") == "Continue" and _r2.int_info(pl.get("ty") or ""):
+                d1 = b.defs().get(pl["local"], [])
+                if len(d1) == 1 and d1[0][0] == "call" and callee_name(d1[0][2]) == "branch" and d1[0][2]["args"]:
+                    a0 = core.op_place(d1[0][2]["args"][0])
+                    d2 = b.defs().get(a0["local"], []) if a0 is not None and not a0["proj"] else []
+                    if len(d2) == 1 and d2[0][0] == "call" and callee_name(d2[0][2]) == "deserialize":
+                        return prev
             return None
         l = pl["local"]
+        prev = l
         if b.is_param(l):
             ty = b.locals[l]["ty"]
             return l if _r2.int_info(ty) else None
@@ -2078,8 +2090,10 @@ def _param_is_bounded(b, p, binop, k):
             if not vals or any(edge(v) for v in vals):
                 return True
         if t["k"] == "call":
+            # a plain conversion of the value (`x.into()` for an error message, `i64::from(x)`) establishes no range
+            conv = callee_name(t) in ("into", "from") and "core::convert::" in (callee(t) or "")
             for a in t["args"]:
-                if is_p(a):
+                if is_p(a) and not conv:
                     return True
                 # a reference to the parameter handed to a call
                 if a["k"] != "const" and not a["place"]["proj"]:
@@ -2146,7 +2160,7 @@ def check_operand_overflow(ctx, res, config="all"):
                 continue
             nm = b.locals[hit].get("name") or ("_%d" % hit)
             res.fail(Finding("R3c-operand-overflow", "%s|%s|%s" % (b.path, nm, rv["op"].replace("WithOverflow", "")),
-                             "overflow-checked %s directly on the caller-supplied `%s: %s`, which the function never compares with anything (line %s): for an extreme value the debug build panics and the release build wraps" % (rv["op"].replace("WithOverflow", "").lower(), nm, b.locals[hit]["ty"], t["span"]["line"]), b, t["span"]["line"]))
+                             "overflow-checked %s directly on the caller-supplied (or deserialized) `%s: %s`, which the function never compares with anything (line %s): for an extreme value the debug build panics and the release build wraps" % (rv["op"].replace("WithOverflow", "").lower(), nm, b.locals[hit]["ty"], t["span"]["line"]), b, t["span"]["line"]))
         # `x.abs()` / `-x` through core's `iN::abs` on a caller-supplied signed integer: MIN has no absolute value in the type
         # (debug panics, release returns MIN); comparing x with 0 does not exclude MIN.  The crate's idiom is unsigned_abs /
         # checked_uabs.  Accepted only if the parameter is compared with a constant at the MIN edge.
